@@ -244,5 +244,5 @@ def _worker(ctx, arg):
 
 
 def run(ctx):
-    per = 70 if ctx.tier == "quick" else 900
+    per = 250 if ctx.tier == "quick" else 2500
     ctx.parallel(_worker, [(k, per) for k in range(core.NPROC)])
